@@ -57,3 +57,34 @@ Fixpoint wf_why_from (root : bool) (b : box) : list (Z * nat) :=
   match b with Box i kids => wf_codes root b ++ flat_map (wf_why_from false) kids end.
 Definition wf_why (b : box) : list (Z * nat) := wf_why_from true b.
 Definition wf_why_page (page : box) : list (Z * nat) := flat_map wf_why (bkids page).
+
+(* ---- painted exactly once, judged on the paint list of the implementation's structure ----
+   every box has exactly one outline visit (draw_outline is unconditional: the painter reached the box once);
+   every text / replaced box shows its content exactly once; no box has its background or border painted twice;
+   every box whose class carries a background (everything but line and text boxes, columns, page) has it painted
+   once.  Returns the offending (box id, code): 1 outline count, 2 content count, 3 background/border twice,
+   4 background missing. *)
+Definition count_ev (l : list event) (id : Z) (ly : layer) : nat :=
+  length (filter (fun e => match e with EPaint i y => (i =? id) && layer_eqb y ly | _ => false end) l).
+Definition has_background (k : kind) : bool :=
+  match k with KLine | KText | KOther | KPage => false | _ => true end.
+Definition once_codes (evs : list event) (skip_root : bool) (t : box) : list (Z * nat) :=
+  flat_map (fun x =>
+    let i := binfo x in
+    let id := bid i in
+    (if Nat.eqb (count_ev evs id LOutline) 1 then [] else [(id, 1%nat)]) ++
+    (if is_text (knd i) || is_replaced (knd i)
+     then (if Nat.eqb (count_ev evs id LContent) 1 then [] else [(id, 2%nat)]) else []) ++
+    (if Nat.leb (count_ev evs id LBg) 1 && Nat.leb (count_ev evs id LBorder) 1 then [] else [(id, 3%nat)]) ++
+    (if has_background (knd i) && Nat.eqb (count_ev evs id LBg) 0 && negb (hid i) then [(id, 4%nat)] else []))
+    (preorder t).
+
+(* bit 3: some box of a regular tree is not painted exactly once *)
+Definition frompage_judge2 (c : box * pnode * list (kind * Z)) : nat :=
+  let '(page, out, bits) := c in
+  (frompage_judge c +
+   (if regular page then
+      match once_codes (paint_ctx out) true page with [] => 0 | _ => 8 end
+    else 0))%nat.
+Definition once_why_page (c : box * pnode * list (kind * Z)) : list (Z * nat) :=
+  let '(page, out, bits) := c in once_codes (paint_ctx out) true page.
